@@ -214,6 +214,62 @@ def run(loader, R, tier):
             if a == b:
                 R.violation("R29.3", "Ne:%s" % pname, prog.loc(fns["Ne"]),
                             "Ne is not the negation of Eq at (%s)" % pname)
+    # ---------------------------------------------------------- R29.4
+    # the relational factories compare exact integers of any size: a
+    # machine-word read of an Integer (mp_get_si / mp_get_ui silently keep
+    # the low bits) anywhere in logic.cpp needs the dominating fits-test of
+    # the same operand and signedness.  Expected count on the tree is zero;
+    # fixtures/tu/positive_controls.cpp keeps an unguarded read that must be
+    # recognised on every run.
+    R.rule("R29.4", "no machine-word read of an Integer in the relational "
+                    "factories without the dominating fits-test")
+    from selib import sym as _sym4
+    from selib.program import show as _show, short as _short
+    PAIR = {"mp_get_si": "mp_fits_slong_p", "mp_get_ui": "mp_fits_ulong_p"}
+    n4 = n4ctl = 0
+    for u, f in sorted(prog.functions.items(), key=lambda kv: kv[1]["qn"]):
+        control = f["qn"] == "verif_positive::unguarded_word"
+        if not f.get("body") or f.get("dependent") or not (
+                control or (f.get("file") or "").endswith(
+                    "/symengine/logic.cpp")):
+            continue
+        if not control:
+            n4 += 1
+
+        def cb4(n, guards, line, f=f, control=control):
+            nonlocal n4ctl
+            if not (n.get("k") == "call" and n.get("n") in PAIR
+                    and n.get("a")):
+                return
+            arg = _show(n["a"][0])
+            ok = False
+            for g in _sym4.flatten_guards(guards):
+                if g[0] == "case":
+                    continue
+                for y in walk(g[0]):
+                    if y.get("k") == "call" and y.get("n") == PAIR[n["n"]] \
+                            and y.get("a") and _show(y["a"][0]) == arg \
+                            and g[1]:
+                        ok = True
+            if ok:
+                return
+            if control:
+                n4ctl += 1
+                return
+            R.violation(
+                "R29.4", _short(f["qn"])[:60], prog.loc(f, line),
+                "%s reads `%s` with no dominating %s of the same operand: "
+                "an Integer of magnitude >= 2^63 is silently truncated to "
+                "its low word, so e.g. Lt(3, 2**100) is decided on the "
+                "wrong numbers" % (_short(f["qn"])[:60], _show(n)[:50],
+                                   PAIR[n["n"]]))
+        _sym4.visit_guarded(f["body"], cb4)
+    R.instance("R29.4", "logic.cpp functions scanned", nontrivial=False,
+               sample={"functions": n4, "positive_control": n4ctl})
+    R.floor("functions of logic.cpp scanned for machine-word reads", n4, 100)
+    R.floor("R29.4 positive control (verif_positive::unguarded_word)",
+            n4ctl, 1)
+
     R.floor("decided (relation, point) entries", decided, 16)
     R.floor("identity instances", R.instances.get("R29.2", 0), 12)
     R.floor("Eq/Ne instances", R.instances.get("R29.3", 0), 8)
